@@ -125,6 +125,16 @@ def r2_r3_hash_and_gate(ctx):
                              "the mismatch edge of the hash comparison does not lead to a failure: corrupted content is reported intact", work=len(from_mism))
             else:
                 r3.ok(k + "|reaches-failure", cfg.loc(b, bs.block), "hash mismatch leads to the failure value", work=len(from_mism))
+            # must-pass-through: no exit / next loop iteration from the mismatch edge that avoids the failure
+            cont = {e.block for e in cfg.exits(b) if e.kind != "err"} | {j for j, t in b.calls() if cname(t) in ("next", "poll_next", "try_next")}
+            esc = cfg.reach(b, [mism], cut_blocks=set(aggs) | {bs.block}) & cont
+            if esc:
+                p = cfg.find_path(b, [mism], esc, cut_blocks=set(aggs) | {bs.block})
+                r3.violation(k + "|mismatch-must-fail", cfg.loc(b, bs.block),
+                             "after a hash mismatch the check can carry on without producing the failure (a second condition lets corrupted content pass)",
+                             work=len(from_mism), witness=cfg.path_lines(b, p))
+            else:
+                r3.ok(k + "|mismatch-must-fail", cfg.loc(b, bs.block), "every path from the mismatch edge produces the failure", work=len(from_mism))
             others = cfg.reach(b, [0], cut_edges={(bs.block, mism)})
             if set(aggs) & others:
                 r3.violation(k + "|failure-only-on-mismatch", cfg.loc(b, aggs[0]),
